@@ -60,13 +60,40 @@ Fixpoint scan (fuel : nat) (j : journal) (pos id : N) (need : bool) (last_time :
       else if negb ok then
         if time <? last_time then done
         else
-          (* info->end_transaction = next_commit_ID *)
+          (* info->end_transaction = next_commit_ID - the first failing commit fixes the end; with ASYNC_COMMIT the
+             scan goes on, and a later commit that fails as well does not move it *)
           if negb (j_async j) then SEnd id
-          else scan f j pos1 (tid_next id) need time (Some id)
+          else scan f j pos1 (tid_next id) need time (match endt with Some e => Some e | None => Some id end)
       else scan f j pos1 (tid_next id) need time endt
     | JRevoke seq ok blks =>
       if negb (seq =? id) then done else
       scan f j pos1 id (need || negb ok) last_time endt
+    | JData _ | JOther => done
+    end
+  end.
+
+(* The scan pass as the code was before the second repair: every failing commit block overwrote the end *)
+Fixpoint scan_overwrite (fuel : nat) (j : journal) (pos id : N) (need : bool) (last_time : N) (endt : option N) : sres :=
+  match fuel with
+  | O => SFuel
+  | S f =>
+    let done := SEnd (match endt with Some e => e | None => id end) in
+    let pos1 := adv j pos 1 in
+    match j_blk j pos with
+    | JDesc seq ok tags =>
+      if negb (seq =? id) then done else
+      scan_overwrite f j (adv j pos1 (N.of_nat (length tags))) id (need || negb ok) last_time endt
+    | JCommit seq ok time =>
+      if negb (seq =? id) then done else
+      if need then (if last_time <=? time then SFail else done)
+      else if negb ok then
+        if time <? last_time then done
+        else if negb (j_async j) then SEnd id
+        else scan_overwrite f j pos1 (tid_next id) need time (Some id)
+      else scan_overwrite f j pos1 (tid_next id) need time endt
+    | JRevoke seq ok blks =>
+      if negb (seq =? id) then done else
+      scan_overwrite f j pos1 id (need || negb ok) last_time endt
     | JData _ | JOther => done
     end
   end.
